@@ -214,7 +214,8 @@ def make_case(rng, k, graph, order, ctor):
     perm_labels = [LABELS[i] for i in rng.permutation(6)]
     exprs_l, plains_l = perm_labels[:k], perm_labels[k:]
     plain = {l: float(rng.uniform(0.5, 3.0)) for l in plains_l}
-    nonneg = [l for l in plains_l if rng.integers(3) == 0]
+    # the non-negative flag is legal on expression parameters too (it only matters for what a history row stores)
+    nonneg = [l for l in plains_l if rng.integers(3) == 0] + [l for l in exprs_l if rng.integers(4) == 0]
     fixed = [l for l in plains_l if l not in nonneg and rng.integers(4) == 0]
     for _try in range(30):
         trees, vals, ok = {}, dict(plain), True
